@@ -87,8 +87,10 @@ impl fmt::Display for Expression {
     fn fmt(&self, f: &mut fmt::Formatter<'_>) -> fmt::Result {
         let mut syms = default_symbol_table();
         let expr = self.convert(&mut syms);
-        let s = expr.print(&syms).unwrap();
-        write!(f, "{}", s)
+        match expr.print(&syms) {
+            Some(s) => write!(f, "{}", s),
+            None => write!(f, "<invalid expression: {:?}>", expr.ops),
+        }
     }
 }
 
